@@ -23,6 +23,10 @@ CLAIMS = {
         category="proof", technique="contract-based deductive verification (Verus/SMT, non-linear + bit-vector lemmas, on extracted real functions)",
         text="Unbounded proof that StrengthReducedU64::{new, quotient, partition_indices} route row j to bucket hash[j] mod n, each row exactly once, for all 2^64 hashes and all divisors 1..2^64-1 (Granlund-Montgomery lemma proved in Verus); seeded mutants must all be rejected in the thorough tier.",
         note="Trusted: Verus+Z3; assume_specification of u64::is_power_of_two; usize is 64 bit; preconditions len(hash) <= u32::MAX and indices.len() == divisor (from new_hash_partitioner); extraction rewrites R1/R2/R5."),
+    "C17": dict(
+        category="proof", technique="contract-based deductive verification: Verus/SMT on the extracted FairSpillPool critical sections (lock elision), Kani/CBMC full-domain loop-free harnesses on the real crate for the other pools and the reservation ledger",
+        text="Sequential per-operation contracts: FairSpillPool::{register,unregister,grow,shrink,try_grow,reserved} (Verus: granted iff within the fair share / the remaining pool, failed attempt changes nothing, exact deltas); GreedyMemoryPool, UnboundedMemoryPool, TrackedConsumer, PeakRecordingPool (Kani, full usize domain); MemoryReservation::{grow,try_grow,shrink,try_shrink,free,resize,try_resize,split,take,new_empty,drop} against the pool contract: reserved() == sum of live reservations after every step and zero once all are dropped. Thread interleavings are not covered: the contracts are the linearisation-point specifications, the concurrent step is a stated assumption.",
+        note="Trusted: Verus+Z3, Kani/CBMC; rewrite R10 (lock elision) cross-checked by a bounded Kani twin on the unextracted try_grow; atomics sequential; byte counts <= usize::MAX/4 resp. /8; parking_lot slow paths stubbed unreachable; SharedRegistration::drop verified separately and used through a counting stub; error text opaque; try_shrink error path not covered (tool artefact)."),
     "C21": dict(
         category="proof", technique="contract-based verification with Kani/CBMC on the real crate (loop-free harness over full-domain symbolic state, I/O stubbed nondeterministically)",
         text="Per-operation accounting contract of FileSpillWriter::write (Ok => global and per-file usage += len and within limit; Err, from quota or from a failed underlying write => both unchanged) and of set_max_temp_directory_size, for the full u64 domain. The byte-level round trip of spill files is outside reach and not claimed.",
@@ -46,7 +50,6 @@ NOT_APPLICABLE = {
     'C13': 'Group-key interning: hashbrown tables + Arrow builders per key type; only the trivial boolean store is reachable, which would not represent the property.',
     'C15': 'schedules; sequential step invariants only would not decide the stated quantifier (stretch unit not built)',
     'C16': 'interleavings and file I/O; only an exit-path contract with stubbed I/O is conceivable (stretch unit not built yet)',
-    'C17': 'unit not built yet in this session (planned: Verus on FairSpillPool, Kani on the other pools and the reservation ledger, DESIGN.md section 3)',
     'C18': 'Memory-limited queries exact or fail cleanly: whole-engine, async, spilling I/O; the accounting parts are claimed under C17/C21.',
     'C19': 'Drop/cancellation releases resources: tokio task lifecycle and schedules; no thread/async support in either verifier.',
     'C20': 'Error propagation through streams: async operators and task fan-out; out of reach.',
